@@ -29,7 +29,7 @@ HIGHLIGHTS = {
     'C16': "`entries_count(_mixed)`, `call_appends_one_entry`, `chain_appends_from` (any length, any starting attrs), `chain_late_from`, **`ndl_chain_reports`** (entries are what the learner model did: `number_events` = the count it returns), `ndl_count_is_actual`, `split_join`, `pad_strip`.",
     'C17': "`fs_clean` (bracket = `with TemporaryDirectory`), `fs_clean_siblings` (spool and chunk directory as in the code), `fs_clean_contents` / **`inputs_unchanged`** (file contents), `generator_call_clean_any_spool`, `old_spool_leaks` (F7).",
     'C18': "`nom_eq_cov`, `var_zero_iff_const`, `reject_iff_const`, `raises_iff`, `cells_independent(_perm)`, `*_schedule_independent`, **`correlation_eq_pearson`** and `correlation_driver_sound` (the model run = Pearson's r over ℝ; what the rational driver computes is its square and sign).",
-    'C19': "structure for every arithmetic (`threads_independent`, `imap_any_arrival_order`, `sort_total`, `walk_order_irrelevant`, `no_overwrite*`), exact times under `TimesExact` + `FloatCompareAgrees` (**`corpus_eq`**, `not_found_listed`, `corpus_error_prefix`, `code_eq_exact`), `boundary_pair` (the float/rational counter-example as a theorem), cleaning (`clean_words`, `clean_strip`, `clean_sentence`, `paragraph_break_iff`, `clean_document`), `parse_time_spec`.",
+    'C19': "structure for every arithmetic (`threads_independent`, `imap_any_arrival_order`, `sort_total`, `walk_order_irrelevant`, `no_overwrite*`), exact times under the decidable per-document hypothesis `CodeCompareAgrees` (**`corpus_eq`**, `not_found_listed`, `corpus_error_prefix`, `code_eq_exact`, `clean_document_code`; `TimesExactSuffices` — the margin condition implies it — is an OPEN statement used only by the `*_of_times_exact` corollaries), `boundary_pair` (the float/rational counter-example as a theorem), cleaning (`clean_words`, `clean_strip`, `clean_sentence`, `paragraph_break_iff`, `clean_document`), `parse_time_spec`.",
     'C20': "`band_terminates(_any_step)`, `band_multiset`, `band_sub`, `band_cutoff`, `band_nodup`, `band_counter`, `band_size`, `band_negative_size`, `load_save` (each hypothesis shown necessary).",
 }
 
